@@ -109,6 +109,24 @@ class Ctx:
         }
 
 
+MAX_INCONCLUSIVE_CASES = 25
+
+
+def guarded(ctx, fn, *args, **kw):
+    """Run one generated case. A case that hits a wall-clock budget (real-thread modes only; the deterministic
+    scheduler gives exact verdicts) is counted as inconclusive and skipped - never a violation, and not a reason to
+    fail the whole check unless it keeps happening."""
+    try:
+        return fn(ctx, *args, **kw)
+    except Inconclusive as e:
+        ctx.count("inconclusive_case")
+        notes = ctx.extra.setdefault("inconclusive_notes", [])
+        if len(notes) < 5:
+            notes.append(str(e)[:200])
+        if ctx.classes["inconclusive_case"] > MAX_INCONCLUSIVE_CASES:
+            raise
+
+
 def hyp_settings(ctx, max_examples, stateful_step_count=None, shrink=None):
     """Hypothesis settings shared by all checks (see DESIGN.md 2.6)."""
     from hypothesis import HealthCheck, Phase, settings
